@@ -1,11 +1,17 @@
 import A2Verif.Lemmas.FsProdosPutG
 /-!
-# `write_file(loc, fimg)` as a step (files of at most 256 chunks)
+# `write_file(loc, fimg)` as a step
 -/
 namespace A2Verif.FsProdos
 open A2Verif.Fs.Prodos
 open A2Verif.Read.Prodos (entryAt dirChain idxPtr indexEntries readData trimName)
 open A2Verif.Read.ProdosT
+
+/-- what the loop of `write_file` leaves: a seedling, a sapling or a tree -/
+def LoopRes (f : FImg) (d2 : Disk) (bm cnt : Nat) (e0 : Bytes) (nb : Nat) (s : WS) (dc : Disk) (Al : List Nat) : Prop :=
+  (f.end_ = 1 ∧ SeedInv f d2 bm cnt e0 nb s dc Al) ∨
+  (2 ≤ f.end_ ∧ f.end_ ≤ 256 ∧ ∃ P, SapInv f d2 bm cnt e0 f.end_ s dc Al P) ∨
+  (256 < f.end_ ∧ ∃ G P, TreeInv f d2 bm cnt e0 f.end_ s dc Al G P ∧ 1 ≤ s.indexCount)
 
 theorem writeFile_trace {f : FImg} {d2 : Disk} {bm cnt : Nat} {e0 nm : Bytes} {ft nb acc0 aux : Nat}
     (ctx : LoopCtx d2 bm cnt) (B k : Nat) (hBnb : B ∉ bmRange bm cnt) (hBsz : B < d2.raw.units.size)
@@ -14,13 +20,13 @@ theorem writeFile_trace {f : FImg} {d2 : Disk} {bm cnt : Nat} {e0 nm : Bytes} {f
     (he0 : entryAt (unitAt d2.raw B) k 39 = e0) (ne : NewEntry e0 nm ft nb acc0 aux)
     (hBused : freeB (effBuf d2 bm cnt) B = false)
     (hnb : ∀ p, (List.range d2.total).find? (freeB (effBuf d2 bm cnt)) = some p → p = nb)
-    (hfh : d2.src.firstHole = true) (hne : f.chunks.length ≠ 0) (h1 : 1 ≤ f.end_) (h256 : f.end_ ≤ 256)
-    (hfit : dataCount f f.end_ + (if f.end_ > 1 then 1 else 0) ≤ (freeBlocks (effBuf d2 bm cnt) d2.total).length)
+    (hfh : d2.src.firstHole = true) (hne : f.chunks.length ≠ 0) (h1 : 1 ≤ f.end_) (hend : f.end_ ≤ 32768)
+    (hfit : allocCount f f.end_ ≤ (freeBlocks (effBuf d2 bm cnt) d2.total).length)
     (h0 : f.end_ = 1 → hasChunk f 0 = true)
     (hbytes : ∀ k data, f.chunks.lookup k = some data → ∀ x ∈ data, x < 256)
     (acc : Nat) (hacc : f.access[0]? = some acc) :
     ∃ s dc Al d3, writeFile { block := B, idx := k + 1 } f d2 = (.ok f.eof, d3) ∧
-      ((f.end_ = 1 ∧ SeedInv f d2 bm cnt e0 nb s dc Al) ∨ (2 ≤ f.end_ ∧ ∃ P, SapInv f d2 bm cnt e0 f.end_ s dc Al P)) ∧
+      LoopRes f d2 bm cnt e0 nb s dc Al ∧
       AState d2 bm cnt dc Al ∧ B ∉ Al ∧
       Next dc d3 bm cnt
         (setUnit dc.raw B (patched (unitAt d2.raw B) (4 + k * 39)
@@ -34,18 +40,20 @@ theorem writeFile_trace {f : FImg} {d2 : Disk} {bm cnt : Nat} {e0 nm : Bytes} {f
   have hgd := getDirectory_st ctx.st B (unitAt d2.raw B) hBnb (units_get_unitAt _ _ hBsz)
   have hge := getEntry_slot hkinds B k (List.mem_singleton.mpr rfl) hk13 hkey
   rw [he0] at hge
-  obtain ⟨s, dc, Al, hloop, hres⟩ := write_loop (f := f) ctx ((ne.efacts).setEof 0) hnb hfh h1 h256 hfit h0 hbytes
+  obtain ⟨s, dc, Al, hloop, hres⟩ := write_loop (f := f) ctx ((ne.efacts).setEof 0) hnb hfh h1 hend hfit h0 hbytes
   have ha : AState d2 bm cnt dc Al := by
-    rcases hres with ⟨_, i⟩ | ⟨_, P, i⟩
+    rcases hres with ⟨_, i⟩ | ⟨_, _, P, i⟩ | ⟨_, G, P, i, _⟩
     · exact i.a
     · exact i.core.a
+    · exact i.a
   have hBAl : B ∉ Al := by
     intro hm; have := (ha.alfree B hm).1; rw [hBused] at this; cases this
   have huB : unitAt dc.raw B = unitAt d2.raw B := unitAt_congr (ha.rawoth B hBAl)
   have hent : ∃ st key used, EFacts e0 s.entry st key used := by
-    rcases hres with ⟨_, i⟩ | ⟨_, P, i⟩
+    rcases hres with ⟨_, i⟩ | ⟨_, _, P, i⟩ | ⟨_, G, P, i, _⟩
     · exact ⟨_, _, _, i.ent⟩
     · exact ⟨_, _, _, i.core.ent⟩
+    · exact ⟨_, _, _, i.ent⟩
   obtain ⟨st, key, used, hef⟩ := hent
   have hl1 : (Ent.setAccess (if f.eof > 0 then Ent.setEof s.entry f.eof else s.entry) acc).length = 39 := by
     split
